@@ -236,8 +236,20 @@ def observe(graph, order, ops, by_object=None, flaky=(), replace=None):
                     break
                 except UnexpectedError:
                     obs["failed_runs"] = obs.get("failed_runs", 0) + 1      # a flaky command failed; run again
+                    if "memo_after_first_failure" not in obs:
+                        obs["memo_after_first_failure"] = [[int(k[1:]), (c._result.h if c._result is not None else -1)] for k, c in p.commands.items() if c.is_finished]
+                        obs["first_failed"] = [int(e[1][1:]) for e in probe.LOG if e[0] == "failed"][0]
+            if flaky:
+                # the state a failed run leaves behind: which commands are finished, with which results (compared with the model's
+                # run_program started from that partial state: C01_resume)
+                obs["memo_before_last_run"] = [[int(k[1:]), (c._result.h if c._result is not None else -1)] for k, c in p.commands.items() if c.is_finished]
+                mark = len(probe.LOG)
             p.run()
             obs["tag"] = 0
+            if flaky:
+                last = probe.LOG[mark:]
+                obs["last_run_enter"] = [[i, sum(1 for e in last if e[0] == "enter" and e[1] == "r%d" % i)] for i in range(n)]
+                obs["last_run_exit"] = [[i, sum(1 for e in last if e[0] == "exit" and e[1] == "r%d" % i)] for i in range(n)]
         except RecursiveModelStructure as ex:
             obs["tag"] = 2
             obs["rep"] = lines.get(ex.lineno)
@@ -315,6 +327,8 @@ def main():
     rnd = random.Random(seed * 65537 + (1 if mode == "dag" else 14))
     tier = os.environ.get("VERIF_TIER", "quick")
     cases, descr, fails = [], [], []
+    rcases, rdescr = [], []
+    fcases, fdescr = [], []
     dist = {"programs": 0, "sizes": {}, "ref_kinds": {"direct": 0, "list": 0}, "history_ops": 0, "outcomes": {}}
     seen, nontrivial = set(), 0
     jobs = []
@@ -386,7 +400,15 @@ def main():
         dist["history_ops"] += len(ops)
         key = "cyclic" if cyc else "acyclic"
         dist["outcomes"][key + ":" + str(obs["tag"])] = dist["outcomes"].get(key + ":" + str(obs["tag"]), 0) + 1
-        if not extra:        # (flaky commands and API edits are outside the Coq model: judged by the oracle below only)
+        if "flaky" in extra and obs["tag"] == 0 and "memo_before_last_run" in obs:
+            pairs = lambda l: clist(["(%d, %d)" % (a, b) for a, b in l])
+            zp = lambda l: clist(["(%d, %s)" % (a, cZ(b if b is not None else -1)) for a, b in l])
+            rcases.append("(%s, %s, %s, %s, %s)" % (c_prog(g, order), zp(obs["memo_before_last_run"]), zp(obs["vals"]), pairs(obs["last_run_enter"]), pairs(obs["last_run_exit"])))
+            rdescr.append({"source": src, "commands_that_fail_on_their_first_execution": ["r%d" % k for k in extra["flaky"]], "finished_before_the_last_run": obs["memo_before_last_run"]})
+            if "memo_after_first_failure" in obs:
+                fcases.append("(%s, %s, %s, %d)" % (c_prog(g, order), clist([str(k) for k in extra["flaky"]]), zp(obs["memo_after_first_failure"]), obs["first_failed"]))
+                fdescr.append({"source": src, "commands_that_fail_on_their_first_execution": ["r%d" % k for k in extra["flaky"]], "finished_after_the_failed_run": obs["memo_after_first_failure"], "failed": obs["first_failed"]})
+        if not extra:        # (API edits are outside the Coq model: judged by the oracle below only; flaky histories: check_resume above)
             cases.append(c_case(g, order, ops, obs))
             descr.append({"source": src, "history": ops, "observed": {k: obs[k] for k in ("tag", "rep", "after", "detail")}})
         nrefs = sum(len(rl_of(g[i])) for i in g)
@@ -433,7 +455,25 @@ def main():
                 if obs["rep"] is None or not on_cycle(nn, g, obs["rep"]):
                     fails.append({"sig": "C14:wrong-line", "what": "RecursiveModelStructure carries the line of command %r, which is not on a cycle" % obs["rep"], "replay": replay})
     files = write_cases("Cases_%s" % mode, cases)
-    json.dump({"files": files, "descr": descr, "oracle_failures": fails, "distribution": dist,
+    rfiles = []
+    for i in range(0, len(rcases), 250):
+        path = os.path.join(os.getcwd(), "Cases_%s_resume_%03d.v" % (mode, i // 250))
+        with open(path, "w") as fh:
+            fh.write("From Coq Require Import List ZArith Bool.\nFrom MP Require Import Base.Check Model.Sched Corr.CheckSched.\n"
+                     "Import ListNotations.\nOpen Scope nat_scope.\n"
+                     "Definition cases : list (prog * list (name * Z) * list (name * Z) * list (name * nat) * list (name * nat)) := [\n  %s\n].\n"
+                     "Eval vm_compute in (failing check_resume cases).\n" % ";\n  ".join(rcases[i:i + 250]))
+        rfiles.append({"path": path, "first": i, "count": len(rcases[i:i + 250])})
+    ffiles = []
+    for i in range(0, len(fcases), 250):
+        path = os.path.join(os.getcwd(), "Cases_%s_failed_%03d.v" % (mode, i // 250))
+        with open(path, "w") as fh:
+            fh.write("From Coq Require Import List ZArith Bool.\nFrom MP Require Import Base.Check Model.Sched Corr.CheckSched.\n"
+                     "Import ListNotations.\nOpen Scope nat_scope.\n"
+                     "Definition cases : list (prog * list name * list (name * Z) * name) := [\n  %s\n].\n"
+                     "Eval vm_compute in (failing check_failed cases).\n" % ";\n  ".join(fcases[i:i + 250]))
+        ffiles.append({"path": path, "first": i, "count": len(fcases[i:i + 250])})
+    json.dump({"failed_files": ffiles, "failed_descr": fdescr, "resume_files": rfiles, "resume_descr": rdescr, "files": files, "descr": descr, "oracle_failures": fails, "distribution": dist,
                "evaluations": len(jobs), "distinct_nontrivial": nontrivial, "samples": descr[:1] + descr[-2:],
                "tree": mpilot.__file__}, open(out, "w"))
 
